@@ -303,7 +303,8 @@ class Engine:
         return s
 
     def _model_says(self, term) -> Optional[bool]:
-        if self.model is None:
+        if self.model is None or self.mode == "fresh":
+            # (non-linear models may contain algebraic numbers whose evaluation is very slow)
             return None
         try:
             v = self.model.eval(term, model_completion=True)
